@@ -18,7 +18,9 @@ TemplatesV ==
     TSellFx("Spouse", q1, <<2, 0>>, <<1, 0>>, "USD", usd, "", One) } \cup
   { TRoc("", <<1, 0>>), TRoc("Spouse", <<25, 1>>), TSfla("", q1, <<3, 0>>), TSfla("Spouse", q3, <<15, 1>>) } \cup
   { TSplit("*", "2-for-1", <<2, 0>>, One, FALSE), TSplit("*", "1-for-2", One, <<2, 0>>, TRUE),
-    TSplit("Spouse", "3-for-2", <<3, 0>>, <<2, 0>>, FALSE), TSplit("", "1.0-for-4.0", One, <<4, 0>>, FALSE) }
+    TSplit("Spouse", "3-for-2", <<3, 0>>, <<2, 0>>, FALSE), TSplit("", "1.0-for-4.0", One, <<4, 0>>, FALSE),
+    \* thirds: share counts that no decimal represents exactly
+    TSplit("*", "1.0-for-3.0", One, <<3, 0>>, FALSE) }
 GapsV == {0, 45}
 SplitRatiosV == {<<2, 1>>, <<1, 2>>, <<3, 2>>, <<1, 3>>}
 OpeningsV == {<<>>, <<<<5, 0>>, <<37, 0>>>>}
